@@ -1739,8 +1739,21 @@ def kernels_src():
     return text, {"functions": len(st) if isinstance(st, dict) else None}
 
 
+def procs_src():
+    """gen/ProcsSrc.v: the daily-process functions without a compartment loop (irrigation, growth_stage, biomass_accumulation,
+    HIref_current_day, HIadj_*, the yield block of run_single_timestep), translated like the kernels; proofs/ProcsSrcOK.v"""
+    import gen_kernels
+    try:
+        text, st = gen_kernels.generate_procs(None)
+    except (gen_kernels.TranslatorError, SyntaxError, RecursionError) as e:
+        msg = str(e).replace("*)", "* )")
+        return ("(* TRANSLATOR-ERROR (harness/gen_kernels.py refused the current source): %s *)\n"
+                "Definition procs_src_translator_refused_the_source : False := I.\n" % msg), {"translator_error": msg[:300]}
+    return text, {"functions": len(st) if isinstance(st, dict) else None}
+
+
 GENERATORS = {"CropCatalogue.v": crop_catalogue, "StateFields.v": state_fields, "StoreSites.v": store_sites, "OrderSources.v": order_sources,
-              "KernelsSrc.v": kernels_src}
+              "KernelsSrc.v": kernels_src, "ProcsSrc.v": procs_src}
 
 
 def main(argv=None):
